@@ -172,6 +172,15 @@ fn cache_op<K: KeyKind, C: Cache<K, TV>>(c: &mut C, op: &str, a: &[u64]) -> Opti
         })),
         ("contains", [k]) => format!("{}", K::with_q(*k, |q| in_call(|| c.contains(q)))),
         ("remove", [k]) => fmt_optv(K::with_q(*k, |q| in_call(|| c.remove(q))).map(|v| v.n)),
+        // remove the key only if it is resident (`contains`): a run of these over the key universe empties the resident
+        // lists while every ghost entry stays
+        ("removeres", [k]) => {
+            if K::with_q(*k, |q| in_call(|| c.contains(q))) {
+                fmt_optv(K::with_q(*k, |q| in_call(|| c.remove(q))).map(|v| v.n))
+            } else {
+                "skip".into()
+            }
+        }
         ("purge", []) => {
             in_call(|| c.purge());
             "()".into()
@@ -852,6 +861,11 @@ impl Comp for TinyComp {
     fn try_clone(&self) -> Option<Self> {
         Some(TinyComp { t: self.t.clone() })
     }
+    fn geo(&self) -> Option<String> {
+        // the key hasher is configuration too: a clone must hash every key as the original does
+        let kh: Vec<String> = (0u64..=8).map(|k| format!("{:x}", self.t.hash_key(&k))).collect();
+        Some(format!("{},kh={}", tiny_env(&self.t).replace(' ', ","), kh.join(".")))
+    }
     fn clone_into(&self, dst: &mut Self) -> bool {
         dst.t.clone_from(&self.t);
         true
@@ -1015,9 +1029,18 @@ impl Comp for SamComp {
 // ---------------------------------------------------------------------------------------------
 
 struct PrComp;
-fn parse_pr(t: &str) -> Option<caches::PutResult<u64, u64>> {
+/// payload whose `==` is not reflexive for the value 9 (like `f64::NAN`): `PutResult`'s equality must be decided by the
+/// payloads, never by the identity of the operands
+#[derive(Clone, Copy, Debug)]
+struct NR(u64);
+impl PartialEq for NR {
+    fn eq(&self, o: &Self) -> bool {
+        self.0 == o.0 && self.0 != 9
+    }
+}
+fn parse_pr(t: &str) -> Option<caches::PutResult<NR, NR>> {
     let p: Vec<&str> = t.split(':').collect();
-    let n = |i: usize| -> Option<u64> { p.get(i)?.parse().ok() };
+    let n = |i: usize| -> Option<NR> { p.get(i)?.parse().ok().map(NR) };
     Some(match (p[0], p.len()) {
         ("P", 1) => caches::PutResult::Put,
         ("U", 2) => caches::PutResult::Update(n(1)?),
@@ -1026,13 +1049,13 @@ fn parse_pr(t: &str) -> Option<caches::PutResult<u64, u64>> {
         _ => return None,
     })
 }
-fn fmt_pr(r: &caches::PutResult<u64, u64>) -> String {
+fn fmt_pr(r: &caches::PutResult<NR, NR>) -> String {
     match r {
         caches::PutResult::Put => "Put".into(),
-        caches::PutResult::Update(o) => format!("Update({})", o),
-        caches::PutResult::Evicted { key, value } => format!("Evicted({}:{})", key, value),
+        caches::PutResult::Update(o) => format!("Update({})", o.0),
+        caches::PutResult::Evicted { key, value } => format!("Evicted({}:{})", key.0, value.0),
         caches::PutResult::EvictedAndUpdate { evicted, update } => {
-            format!("EvictedAndUpdate({}:{},{})", evicted.0, evicted.1, update)
+            format!("EvictedAndUpdate({}:{},{})", evicted.0 .0, evicted.1 .0, update.0)
         }
     }
 }
@@ -1043,6 +1066,15 @@ impl Comp for PrComp {
                 let (a, b) = (parse_pr(sa[0])?, parse_pr(sa[1])?);
                 // `==` and `!=` must be each other's negation, and the derived `Copy` must agree with `Clone`
                 let (e, ne) = (a == b, a != b);
+                if e == ne {
+                    return Some("INCONSISTENT eq/ne".into());
+                }
+                format!("{}", e)
+            }
+            ("preqself", 1) => {
+                let a = parse_pr(sa[0])?;
+                #[allow(clippy::eq_op)]
+                let (e, ne) = (a == a, a != a);
                 if e == ne {
                     return Some("INCONSISTENT eq/ne".into());
                 }
